@@ -38,9 +38,15 @@ def initial_trees():
                   "src-old/c.py": "c = 1\n", "srcfile.py": "d = 1\n", "empty.txt": {"empty": True}, "img.png": {"hex": PNG_HEX},
                   "LICENSES/LicenseRef-x.txt": "the project's own custom licence\n", "vendor-texts/LicenseRef-x.txt": "a different text\n",
                   "vendor-texts/LicenseRef-y.txt": "text y\n", "legacy1.c": {"latin1": "/* J\xfcrgen */\nint a;\n"}, "old/legacy2.c": {"latin1": "/* caf\xe9 */\n"},
-                  "old/legacy3.py": {"latin1": "# na\xefve\n"}, "zz_legacy4.c": {"latin1": "/* \xe5 */\n"}, "old/pic.png": {"hex": PNG_HEX}}
+                  "old/legacy3.py": {"latin1": "# na\xefve\n"}, "zz_legacy4.c": {"latin1": "/* \xe5 */\n"}, "old/pic.png": {"hex": PNG_HEX},
+                  # unrelated files whose names look like scratch / backup names of files that get annotated
+                  "src/a.py.tmp": "unrelated scratch file\n", "src/a.py~": "editor backup\n", "src/sub/b.c.license.tmp": "unrelated\n", "img.png.license.tmp": "unrelated\n",
+                  "src/a.py.bak": "backup\n", "src/.a.py.swp": "swap\n"}
     t["git"] = {"src/a.py": H + "a = 1\n", "src/sub/b.c": "int b;\n", "build/out.log": "ignored\n", "untracked.py": "u = 1\n", ".gitignore": "*.log\nbuild/\n",
                 "src/debug.log": "ignored too\n", "LICENSES/MIT.txt": "mit\n", "@git": ["src/a.py", "src/sub/b.c", ".gitignore", "LICENSES/MIT.txt"]}
+    # the project root is a sub-directory of a larger Git work tree
+    t["git-subdir-root"] = {"src/a.py": H + "a = 1\n", "src/sub/b.c": "int b;\n", "build/out.log": "ignored\n", "src/debug.log": "ignored too\n", "untracked.py": "u = 1\n",
+                            ".gitignore": "*.log\nbuild/\n", "LICENSES/MIT.txt": "mit\n", "@gitparent": ["proj/src/a.py", "proj/src/sub/b.c", "proj/.gitignore", "proj/LICENSES/MIT.txt"]}
     t["symlinks"] = {"src/a.py": H + "a = 1\n", "src/sub/b.c": "int b;\n", "LICENSES/MIT.txt": "mit\n",
                      "link-in.py": {"symlink": "src/a.py"}, "link-out.py": {"symlink": "../outside/secret.txt"}, "link-dir": {"symlink": "../outside/dir"},
                      "src/link-up": {"symlink": "../../outside"}, "dangling": {"symlink": "nowhere"}}
@@ -81,6 +87,10 @@ def build(recipe, base):
     if "@git" in recipe:
         gitrepo.git(root, "init", "-q")
         gitrepo.git(root, "add", "-f", "--", *[p for p in recipe["@git"] if (root / p).exists()])
+    if "@gitparent" in recipe:
+        (base / ".gitignore").write_text("outside/\n")
+        gitrepo.git(base, "init", "-q")
+        gitrepo.git(base, "add", "-f", "--", ".gitignore", *[p for p in recipe["@gitparent"] if (base / p).exists()])
     return base, root
 
 
@@ -109,14 +119,15 @@ def tree_to_recipe(root, old):
                 if mode != 0o644:
                     spec["mode"] = mode
                 rec[rel] = spec
-    if "@git" in old:
-        rec["@git"] = old["@git"]
+    for k in ("@git", "@gitparent"):
+        if k in old:
+            rec[k] = old[k]
     return rec
 
 
 def snap(base):
     s = snapshot(base)
-    return {k: v for k, v in s.items() if not (k == "proj/.git" or k.startswith("proj/.git/"))}
+    return {k: v for k, v in s.items() if not (k == "proj/.git" or k.startswith("proj/.git/") or k == ".git" or k.startswith(".git/") or k == ".gitignore")}
 
 
 def covered_under(root, directory, git):
@@ -158,7 +169,7 @@ def step(recipe, cmd):
 def _step(recipe, cmd, base):
     base, root = build(recipe, base)
     argv, cwd = MENU[cmd]
-    git = "@git" in recipe
+    git = "@git" in recipe or "@gitparent" in recipe
     allowed_dirs = ()
     if cmd.startswith("annotate-r") or cmd == "annotate-file" or cmd == "annotate-dot-license":
         pass
@@ -170,6 +181,9 @@ def _step(recipe, cmd, base):
     cwd_abs = root / cwd
     if not cwd_abs.is_dir():
         return recipe, [], "n/a-no-cwd"
+    if "@gitparent" in recipe and "--root" not in argv and argv[0] not in ("--help", "--version"):
+        # without --root the Git top level (the parent directory) would be the project; name the sub-directory explicitly
+        argv = ["--root", str(root), *argv]
     with stub_net(lambda ident: ("ok", f"text of {ident}\n".encode())), virtual_pool({"chunksize": 3}):
         out = run_cli(argv, cwd=str(cwd_abs))
     after = snap(base)
